@@ -10,6 +10,8 @@ import SMGo.Model.Utils
 import SMGo.Spec.Utils
 import SMGo.Model.SM3State
 import SMGo.Gen.SM3Const
+import SMGo.Spec.SM4
+import SMGo.Model.SM4Inst
 open SMGo
 
 def parseBytes (s : String) : Option Bytes :=
@@ -39,15 +41,66 @@ def showSM3Out : Model.SM3.Out → String
   | .digest b => "sum=" ++ Bytes.toHex b
   | .none => "-"
 
-def specSM3Run (ops : List Model.SM3.Op) : List String :=
-  (ops.foldl (fun (acc : Bytes × List String) op =>
-    match op with
-    | .write d => (acc.1 ++ d, s!"n={d.length}" :: acc.2)
-    | .sum inp => (acc.1, ("sum=" ++ Bytes.toHex (inp ++ Spec.SM3.hash acc.1)) :: acc.2)
-    | .reset => ([], "-" :: acc.2)) ([], [])).2.reverse
+/-- what the specification says each call of a history answers: `Spec.SM3.runHistory`, the very
+    function theorem `C04_history` is stated against -/
+def specSM3Run (ops : List Spec.SM3.Op) : List String :=
+  (Spec.SM3.runHistory ops).map showSM3Out
+
+def showWords (ws : List W32) : String := Bytes.toHex (ws.flatMap w32Bytes)
+
+/-- SM4 requests (portable model, specification) -/
+def handleSM4 (toks : List String) : Option String :=
+  match toks with
+  | ["sm4.block", key, blk, dir] =>
+    match parseBytes key, parseBytes blk with
+    | some key, some blk =>
+      match Model.SM4.newCipher Model.SM4.genTables key with
+      | .ok (enc, dec) =>
+        if blk.length ≠ 16 then some "bad-op" else
+        some ("ok " ++ Bytes.toHex (Model.SM4.cryptoBlock Model.SM4.genTables (if dir = "enc" then enc else dec) blk))
+      | _ => some "err"
+    | _, _ => some "bad-op"
+  | ["sm4.x2", key, blk, dir] =>
+    match parseBytes key, parseBytes blk with
+    | some key, some blk =>
+      match Model.SM4.newCipher Model.SM4.genTables key with
+      | .ok (enc, dec) =>
+        if blk.length ≠ 32 then some "bad-op" else
+        some ("ok " ++ Bytes.toHex (Model.SM4.cryptoBlockX2 Model.SM4.genTables (if dir = "enc" then enc else dec) blk))
+      | _ => some "err"
+    | _, _ => some "bad-op"
+  | ["sm4.spec", key, blks, dir] =>
+    -- any number of whole blocks, each through the specification
+    match parseBytes key, parseBytes blks with
+    | some key, some blks =>
+      if key.length ≠ 16 then some "err" else
+      if blks.length % 16 ≠ 0 then some "bad-op" else
+      let rk := if dir = "enc" then Spec.SM4.keySchedule key else (Spec.SM4.keySchedule key).reverse
+      let rec go (fuel : Nat) (b : Bytes) (acc : Bytes) : Bytes :=
+        match fuel with
+        | 0 => acc
+        | fuel + 1 => if b.isEmpty then acc else go fuel (b.drop 16) (acc ++ Spec.SM4.crypt rk (b.take 16))
+      some ("ok " ++ Bytes.toHex (go (blks.length / 16 + 1) blks []))
+    | _, _ => some "bad-op"
+  | ["sm4.expand", key] =>
+    match parseBytes key with
+    | some key =>
+      match Model.SM4.newCipher Model.SM4.genTables key with
+      | .ok (enc, dec) => some ("ok " ++ showWords enc ++ " " ++ showWords dec)
+      | _ => some "err"
+    | none => some "bad-op"
+  | ["sm4.expand.spec", key] =>
+    match parseBytes key with
+    | some key =>
+      if key.length ≠ 16 then some "err" else
+      let rk := Spec.SM4.keySchedule key
+      some ("ok " ++ showWords rk ++ " " ++ showWords rk.reverse)
+    | none => some "bad-op"
+  | _ => none
 
 def handle (line : String) : String :=
   let toks := (line.splitOn " ").filter (· ≠ "")
+  if let some r := handleSM4 toks then r else
   match toks with
   | ["cmp", a, b, l] =>
     match parseOptBytes a, parseOptBytes b, l.toInt? with
